@@ -46,7 +46,19 @@ REQUIRED_TAGS = ['form=check', 'form=sections', 'form=to_index', 'form=from_inde
                  'loop=asgiven', 'loop=reordered', 'loop=reversed-member', 'loop=open', 'cpc=knot', 'cpc=between',
                  'cpc=outside', 'oracle-only', 'raises', 'corners=F', 'faces=None']
 KNOWN_LABELS = ['edge-curves-homogeneous-endpoint-test', 'coons-rational-unequal-corner-weights',
-                'edge-surfaces-6-rational-refused', 'const-par-curve-periodic-direction']
+                'edge-surfaces-6-rational-refused', 'const-par-curve-periodic-end',
+                'const-par-curve-periodic-few-functions']
+
+ASSUMPTIONS = [
+    'factories (edge_curves, coons_patch, edge_surfaces) are modelled for inputs whose bases are identical after '
+    'reparametrisation to [0,1] (open knot vectors, order >= 2); for them make_splines_identical only has to express the '
+    'linear blends in the target basis, which the model does with the Greville abscissae (justified by C15_coons_net_eval); '
+    'inputs with differing bases are checked by the model-independent oracle only (make_splines_identical is C12)',
+    'thicken is not modelled (square root); oracle only',
+    'section() with more positional selectors than parametric directions is outside the model (never generated)',
+    'the oracle claims nothing for sections of periodic or non-clamped directions, for parameter lines through knots of '
+    'multiplicity >= order (discontinuous surface), and for const_par_curve parameters outside [start, end]',
+]
 
 CP_RTOL = 0.0      # splipy.state.controlpoint_relative_tolerance
 CP_ATOL = 1e-8     # splipy.state.controlpoint_absolute_tolerance
@@ -338,13 +350,22 @@ def generate(rng, tier):
             pts = gen.eval_points(rng, b, per_span=1, outside=False)
             rng.shuffle(pts)
             a, e = _ends(b)
-            pts = [a, e] + pts[:3 if quick else 8]
+            pts = [a, e] + [x for x in pts if x not in (a, e)][:3 if quick else 8]
             for x in pts:
                 direction = rng.choice([d, d, 'uv'[d], 'UV'[d]])
                 specs.append({'form': 'cpc', 'obj': o, 'knot': x, 'direction': direction, 'd': d})
             specs.append({'form': 'cpc', 'obj': o, 'knot': e + 0.5, 'direction': d, 'd': d})
         if si % 4 == 0:
             specs.append({'form': 'cpc', 'obj': o, 'knot': _ends(o['bases'][0])[0], 'direction': rng.choice([2, 'w', -1]), 'd': 0})
+    # periodic directions: the end of the period, and a basis with fewer than p+k functions
+    for pb, x in ((gen.periodic_basis(rng, 3, 1, n_interior=4, max_mult=1), 'end'),
+                  (gen.periodic_basis(rng, 3, 0, n_interior=0), 'mid')):
+        ob = gen.open_basis(rng, 2, n_interior=0)
+        o = {'bases': [pb, ob], 'rational': False,
+             'cps': gen.rand_cps(rng, [gen.basis_info(pb)['n'], gen.basis_info(ob)['n']], 2, False)}
+        a, e = _ends(pb)
+        specs.append({'form': 'cpc', 'obj': o, 'knot': e if x == 'end' else a + (e - a) * 0.25, 'direction': 0, 'd': 0})
+        specs.append({'form': 'cpc', 'obj': o, 'knot': a + (e - a) * 0.625, 'direction': 'u', 'd': 0})
     # --- edge_curves, two curves -------------------------------------------------------------------------
     for i in range(8 if quick else 60):
         b = _cont_basis(rng, rng.randint(2, 4), rng.randint(0, 2))
@@ -742,8 +763,8 @@ def oracle(sp, s):
         b = s['obj']['bases'][d]
         a, e = _ends(b)
         x = s['knot']
-        if b['periodic'] < 0 and not (a <= x <= e):
-            return []
+        if not (a <= x <= e):
+            return []      # outside the parametric domain [start, end] (ValueError, or periodic wrap: no claim)
         # a knot of multiplicity >= order: the surface is discontinuous across the line
         if b['periodic'] < 0 and a < x < e and sum(1 for k in b['knots'] if abs(k - x) < gen.TOL) >= b['order']:
             return []
@@ -858,7 +879,12 @@ def classify(s, res=None):
     if f == 'edge_surfaces' and len(s['surfs']) == 6 and any(x['rational'] for x in s['surfs']):
         return 'edge-surfaces-6-rational-refused'
     if f == 'cpc' and s['obj']['bases'][s['d']]['periodic'] >= 0:
-        return 'const-par-curve-periodic-direction'
+        b = s['obj']['bases'][s['d']]
+        info = gen.basis_info(b)
+        if abs(s['knot'] - info['end']) < gen.TOL:
+            return 'const-par-curve-periodic-end'
+        if info['n'] < info['p'] + info['k']:
+            return 'const-par-curve-periodic-few-functions'     # region of the periodic insert_knot defects (C04)
     return None
 
 
